@@ -23,6 +23,12 @@ Record cop := {
 
 Definition CR_ := (cop * list cev)%type.
 
+Definition set_fwrite (c : cop) (b : bool) : cop :=
+  {| c_content := c_content c; c_seq := c_seq c; c_pos := c_pos c; c_buf := c_buf c; c_src_closed := c_src_closed c;
+     f_open_src := f_open_src c; f_open_dst := f_open_dst c; f_seek := f_seek c; f_read := f_read c; f_write := b;
+     c_bs := c_bs c; c_from := c_from c; c_to := c_to c;
+     c_stopped := c_stopped c; c_pending := c_pending c; c_connected := c_connected c |}.
+
 Definition upd (c : cop) (pos : Z) (buf : bytes) (closed stopped : bool) (p : pend) (conn : bool) : cop :=
   {| c_content := c_content c; c_seq := c_seq c; c_pos := pos; c_buf := buf; c_src_closed := closed;
      f_open_src := f_open_src c; f_open_dst := f_open_dst c; f_seek := f_seek c; f_read := f_read c; f_write := f_write c;
@@ -79,7 +85,9 @@ Definition c_on_channel_finished (c : cop) : CR_ :=
                  end in
   (c1, l ++ [CFinished]).
 
-Inductive cop_op := CStart | CTurn | CStop | CFeed (b : bytes) | CFinish | CSetBs (n : Z).
+Inductive cop_op := CStart | CTurn | CStop | CFeed (b : bytes) | CFinish | CSetBs (n : Z)
+                    | CDestFlush (n : Z)      (* the destination reports n buffered bytes as written: nothing to the copier *)
+                    | CDestDie.               (* the destination goes away: every later write fails *)
 
 (* QIODeviceCopier::setBufferSize: the block size from the next block on *)
 Definition set_bs (c : cop) (n : Z) : cop :=
@@ -104,6 +112,8 @@ Definition c_step (c : cop) (o : cop_op) : CR_ :=
       else if c_connected c then c_on_ready_read c1 else (c1, [])
   | CFinish => if c_seq c && c_connected c then c_on_channel_finished c else (c, [])
   | CSetBs n => (set_bs c n, [])
+  | CDestFlush _ => (c, [])
+  | CDestDie => (set_fwrite c true, [])
   end.
 
 Fixpoint c_run (k : Z) (c : cop) (ops : list cop_op) : CR_ :=
@@ -127,6 +137,8 @@ Definition dec_cop_op (v : value) : option cop_op :=
   | VL [VI 3; VB b] => Some (CFeed b)
   | VL [VI 4] => Some CFinish
   | VL [VI 5; VI n] => Some (CSetBs n)
+  | VL [VI 6; VI n] => Some (CDestFlush n)
+  | VL [VI 7] => Some CDestDie
   | _ => None
   end.
 Fixpoint dec_cop_ops (l : list value) : option (list cop_op) :=
@@ -159,7 +171,7 @@ Definition run_copier (c : value) : value :=
       end
   (* a random-access source that hands out at most [cap] bytes per read call: the copier then works like one whose block
      size is min bs cap (it writes what it got and asks again until the end of the device) *)
-  | VL (VB content :: VI seq :: VI bs :: VI from :: VI to :: VL [VI f1; VI f2; VI f3; VI f4; VI f5; VI cap] :: VL ops :: _) =>
+  | VL (VB content :: VI seq :: VI bs :: VI from :: VI to :: VL (VI f1 :: VI f2 :: VI f3 :: VI f4 :: VI f5 :: VI cap :: _) :: VL ops :: _) =>
       match dec_cop_ops ops with
       | Some ops' =>
           VL (map cev_value (snd (c_run 0 (mk_cop content (as_bool seq) (if (0 <? cap) && negb (as_bool seq) then Z.min bs cap else bs) from to
